@@ -22,6 +22,10 @@ pub fn run(ctx: &mut Ctx) {
         let (threads, calls) = if cfg!(miri) { (2 + rng.below(3), 10 + rng.below(30)) } else {
             match r % 5 { 0 => (2, 10_000 / ctx.scale), 1 => (64, 10 + rng.below(100)), 2 => (16, 1000 / ctx.scale), _ => (2 + rng.below(30), 10 + rng.below(2000 / ctx.scale)) }
         };
+        // Once per shard: one long-lived thread that asks for more than 2^20 names while short-lived threads come and go
+        // (schemes that hand out per-thread blocks or ranges only collide after many calls from one thread).
+        let heavy = !cfg!(miri) && r == 6 && ctx.scale <= 4; // an even round: all threads use the same name part
+        let (threads, calls) = if heavy { (9, 8) } else { (threads, calls) };
         max_threads = std::cmp::max(max_threads, threads);
         let same_part = r % 2 == 0;
         let barrier = Arc::new(Barrier::new(threads));
@@ -30,6 +34,7 @@ pub fn run(ctx: &mut Ctx) {
             let b = barrier.clone();
             let part = if same_part { "vmon-c20".to_string() } else { format!("vmon-c20-t{}", t) };
             handles.push(std::thread::spawn(move || {
+                let calls = if heavy && t == 0 { (1usize << 20) + (1 << 16) } else { calls };
                 let mut out: Vec<(String, String)> = Vec::with_capacity(calls);
                 b.wait();
                 for i in 0..calls {
